@@ -26,6 +26,8 @@ import itertools
 NAMES = "ABCD"
 # all 8 oriented strings are distinct, also after dropping 1 or 2 letters
 SEQS = {"A": "ACC", "B": "GAT", "C": "TTG", "D": "CTA"}
+# IUPAC ambiguity codes, mixed case: every oriented string is still distinct
+SEQS_IUPAC = {"A": "ASr", "B": "WKb", "C": "nMY", "D": "HdV"}
 SLEN = 3
 OVLS = ("*", "1M", "2M")
 
@@ -101,7 +103,7 @@ def spec(kind, n, segvar, links, extras=()):
 
 def _seg_fields(name, segvar):
   star = (segvar == "star") or (segvar == "mix" and name in "BD")
-  seq = "*" if star else SEQS[name]
+  seq = "*" if star else (SEQS_IUPAC if segvar == "iupac" else SEQS)[name]
   ln = star or segvar == "seqln"
   return seq, ln
 
@@ -245,9 +247,9 @@ def family_gfa1(tier, full3=True):
     for ls in full(n, k, kmin=1):
       out.append(("full", spec("g1", n, "seq", ls)))
   # F3: sequence variants on the pattern that mixes forms and overlaps
-  for sv in ("star", "seqln", "mix"):
+  for sv in ("star", "seqln", "mix", "iupac"):
     for n in (2, 3):
-      for sh in shapes(n, 3 if sv != "seqln" or not quick else 2, kmin=1):
+      for sh in shapes(n, 3 if sv not in ("seqln", "iupac") or not quick else 2, kmin=1):
         out.append(("segvar", spec("g1", n, sv, patterned(sh, 2))))
   # F4: decorated graphs (lines that must survive untouched)
   for n in (2, 3):
